@@ -543,6 +543,47 @@ func checkC14Into(c *Ctx, prefix string) {
 	ri.Check(nFail >= 1, prep.Name(), "failing arm exists", prep.Body.Pos(), "prepare error is returned", "no failing arm found after PrepareContext")
 	ri.Check(nHit >= 2, prep.Name(), "two cache-hit arms (double-checked)", prep.Body.Pos(), "read-locked and write-locked lookups", fmt.Sprintf("%d cache-hit arms, expected the double-checked pair", nHit))
 
+	// the cached entry's *sql.Stmt is assigned under the write lock (Close/Reset read it under the lock too)
+	{
+		sqlStmtF := p.Field(stmtT, "Stmt")
+		lockConf := &GuardConfig{Name: "c14-lock-events", Events: func(info *types.Info, n ast.Node) []string {
+			var out []string
+			ast.Inspect(n, func(x ast.Node) bool {
+				if _, ok := x.(*ast.FuncLit); ok {
+					return false
+				}
+				if ce, ok := x.(*ast.CallExpr); ok {
+					if fn, _ := typeutil.Callee(info, ce).(*types.Func); fn != nil {
+						if sel, ok := ce.Fun.(*ast.SelectorExpr); ok && fieldSel(info, sel.X, la.muxF) {
+							out = append(out, "mux:"+fn.Name())
+						}
+					}
+				}
+				return true
+			})
+			return out
+		}}
+		_ = lockConf
+		n := 0
+		ast.Inspect(prep.Body, func(nd ast.Node) bool {
+			as, ok := nd.(*ast.AssignStmt)
+			if !ok {
+				return true
+			}
+			for _, l := range as.Lhs {
+				if !fieldSel(pinfo, l, sqlStmtF) {
+					continue
+				}
+				n++
+				// previous and next sibling statements must be Lock / Unlock of the mutex
+				locked := siblingLocked(prep, pinfo, as, la)
+				ri.Check(locked, prep.Name(), "entry's statement published under the write lock", as.Pos(), "Lock; entry.Stmt = stmt; Unlock", "the prepared statement is stored into the published cache entry without holding the write lock: Close/Reset read the field concurrently (data race, and a statement that is never closed)")
+			}
+			return true
+		})
+		ri.Check(n >= 1, prep.Name(), "publishes the prepared statement", prep.Body.Pos(), "entry.Stmt assigned", "prepare never stores the prepared statement into the cache entry")
+	}
+
 	// ---- C14.evict ----
 	re := c.Rule("C14.evict", "every exec/query wrapper with an error result evicts on ErrBadConn (async Close + delete); Close/Reset close entries after prepared and drop/replace the map", 6)
 	badConn := p.Lookup2("database/sql/driver", "ErrBadConn")
@@ -719,4 +760,55 @@ func (p *Program) Lookup2(path, name string) types.Object {
 	}
 	fatalf("anchor: %s.%s not found", path, name)
 	return nil
+}
+
+// siblingLocked: statement st sits between X.Mux.Lock() and X.Mux.Unlock() in the same statement list.
+func siblingLocked(f *FuncSrc, info *types.Info, st ast.Stmt, la *lockAnalysis) bool {
+	parents := parentMap(f.Body)
+	blk, ok := parents[st].(*ast.BlockStmt)
+	if !ok {
+		return false
+	}
+	isMuxCall := func(s ast.Stmt, name string) bool {
+		es, ok := s.(*ast.ExprStmt)
+		if !ok {
+			return false
+		}
+		ce, ok := es.X.(*ast.CallExpr)
+		if !ok {
+			return false
+		}
+		fn, _ := typeutil.Callee(info, ce).(*types.Func)
+		sel, _ := ce.Fun.(*ast.SelectorExpr)
+		return fn == la.rw[name] && sel != nil && fieldSel(info, sel.X, la.muxF)
+	}
+	idx := -1
+	for i, s := range blk.List {
+		if s == st {
+			idx = i
+		}
+	}
+	if idx < 0 {
+		return false
+	}
+	before, after := false, false
+	for i := idx - 1; i >= 0; i-- {
+		if isMuxCall(blk.List[i], "Unlock") {
+			break
+		}
+		if isMuxCall(blk.List[i], "Lock") {
+			before = true
+			break
+		}
+	}
+	for i := idx + 1; i < len(blk.List); i++ {
+		if isMuxCall(blk.List[i], "Lock") {
+			break
+		}
+		if isMuxCall(blk.List[i], "Unlock") {
+			after = true
+			break
+		}
+	}
+	return before && after
 }
